@@ -500,6 +500,98 @@ func c13(r *report.Run) {
 			}
 		}
 	}
+	// (F) failures of a builtin's own machinery (its collection is not a collection, its predicate does not yield a bool)
+	// belong to the builtin: they are reported at the first character of its name, whatever surrounds it
+	posOf := func(src string, at int) (int, int) {
+		line, col := 1, 0
+		for _, c := range []rune(src[:at]) {
+			if c == '\n' {
+				line, col = line+1, 0
+			} else {
+				col++
+			}
+		}
+		return line, col
+	}
+	for bi, b := range []string{"all", "none", "any", "one", "filter", "map", "count"} {
+		body, bad := "true", "X"
+		if b == "map" {
+			body = "1"
+		}
+		for ci, ctx := range []string{"%s", "[1, %s]", "B or %s == nil", "[\"é😀\",\n  %s]", "len([%s, 2])", "{a: %s}.a", "Id(1) > 0 ? %s : 0", "not (%s == 1)"} {
+			for _, call := range []string{b + "(X, {" + body + "})", b + "(A, {" + bad + "})", "len(" + b + "(X, {" + body + "}))"} {
+				if strings.HasPrefix(call, "len(") && b != "filter" && b != "map" {
+					continue
+				}
+				if b == "map" && strings.Contains(call, "{X}") {
+					continue // map accepts any mapper result
+				}
+				src := fmt.Sprintf(ctx, call)
+				at := strings.Index(src, b+"(")
+				line, col := posOf(src, at)
+				for _, opt := range []bool{true, false} {
+					p, err := expr.Compile(src, expr.Env(henv.Env{}), expr.Optimize(opt))
+					if err != nil {
+						continue
+					}
+					_, err = lib.Run(p, *henv.MakeFull(henv.Val{}))
+					atomic.AddInt64(&runtimeFaults, 1)
+					fe := fileErr(err)
+					if err == nil {
+						continue
+					}
+					order := int64(1)<<40 + 1000 + int64(bi*100+ci)
+					if fe == nil || fe.Location.Empty() {
+						r.Report(report.Violation{Sub: "runtime/builtin", Kind: "no-position", Witness: "failing machinery of " + b, Order: order, Detail: map[string]interface{}{"source": src, "optimize": opt, "error": err.Error()}})
+						continue
+					}
+					if s := c13Sanity(src, fe); s != "" {
+						r.Report(report.Violation{Sub: "runtime/builtin", Kind: "location-outside-source", Witness: "failing machinery of " + b, Order: order, Detail: map[string]interface{}{"source": src, "what": s}})
+						continue
+					}
+					if fe.Line != line || fe.Column != col {
+						r.Report(report.Violation{Sub: "runtime/builtin", Kind: "wrong-position", Witness: "failing machinery of " + b, Order: order,
+							Detail: map[string]interface{}{"source": src, "optimize": opt, "expected": fmt.Sprintf("%d:%d", line, col), "reported": fmt.Sprintf("%d:%d", fe.Line, fe.Column), "message": fe.Message}})
+					}
+				}
+			}
+		}
+	}
+	// (G) the same keyword literal written several times: a fault at a later occurrence is reported there
+	for i, c := range []struct {
+		src, needle string
+		occ         int
+	}{
+		{"B == true or Id(true) > 0", "true", 2}, {"B == true or B == false or Id(false) > 0", "false", 2}, {"[true, true, Id(true)]", "true", 3}, {"O == nil or\n (nil ? 1 : 2) > 0", "nil", 2},
+		{"B == true or\n  I + true > 0", "+", 1}, {"[nil, nil, Id(nil)]", "nil", 3}, {"B ? true : Cat(true, S)", "true", 2}, {"not true or not (false + 1 > 0)", "+", 1}, {"[false, Pos(false)]", "false", 2},
+	} {
+		at := -1
+		for k, from := 0, 0; k < c.occ; k++ {
+			j := strings.Index(c.src[from:], c.needle)
+			if j < 0 {
+				at = -1
+				break
+			}
+			at = from + j
+			from = at + len(c.needle)
+		}
+		if at < 0 {
+			continue
+		}
+		line, col := posOf(c.src, at)
+		for _, opt := range []bool{true, false} {
+			_, err := expr.Compile(c.src, expr.Env(henv.Env{}), expr.Optimize(opt))
+			atomic.AddInt64(&compileFaults, 1)
+			fe := fileErr(err)
+			if err == nil || fe == nil {
+				continue
+			}
+			if fe.Line != line || fe.Column != col {
+				r.Report(report.Violation{Sub: "compile/repeated-literal", Kind: "wrong-position", Witness: fmt.Sprintf("occurrence %d of %s", c.occ, c.needle), Order: int64(1)<<40 + 5000 + int64(i),
+					Detail: map[string]interface{}{"source": c.src, "expected": fmt.Sprintf("%d:%d", line, col), "reported": fmt.Sprintf("%d:%d", fe.Line, fe.Column), "message": fe.Message}})
+			}
+		}
+	}
 	r.Set("runtime_faults_checked", runtimeFaults)
 	r.Set("compile_faults_injected", compileFaults)
 	r.Set("syntax_faults_injected", syntaxFaults)
